@@ -134,7 +134,7 @@ Proof.
   match goal with |- ok_opt (obind (while_fuel _ ?C ?B _) _) = _ =>
     pose proof (kt_get_paths_loop lvs C B) as HL
   end.
-  specialize (HL ltac:(intros; reflexivity) ltac:(intros; reflexivity) lvs (S (length lvs)) [] 0 index eq_refl ltac:(lia)).
+  specialize (HL ltac:(body_eq) ltac:(body_eq) lvs (S (length lvs)) [] 0 index eq_refl ltac:(lia)).
   etransitivity; [exact HL|]. change (N.to_nat 0) with 0%nat.
   destruct (paths_loop lvs (N.to_nat index) 0); reflexivity.
 Qed.
@@ -300,7 +300,7 @@ Section Root.
     replace (Nat.div (if odd then S (N.to_nat nc) else N.to_nat nc) 2) with (N.to_nat (nc2 / 2))
       by (subst nc2; rewrite N2Nat.inj_div; destruct odd; [f_equal; lia|reflexivity]).
     match goal with |- ok_opt (obind (obind (obind (fold_res ?F _ _) _) _) _) = _ =>
-      pose proof (kt_pair_loop below cur' ab F ltac:(intros; reflexivity) (N.to_nat (nc2 / 2)) 0%nat nx) as HP
+      pose proof (kt_pair_loop below cur' ab F ltac:(body_eq) (N.to_nat (nc2 / 2)) 0%nat nx) as HP
     end.
     destruct (fold_res _ (map N.of_nat (seq 0 (N.to_nat (nc2 / 2)))) (below ++ cur' :: nx :: ab)) as [lv3| |];
       destruct (pair_hashes H v (N.to_nat (nc2 / 2)) 0 cur') as [hs| |];
@@ -324,7 +324,7 @@ Proof.
   unfold vec_idx_p at 1 2. change (N.to_nat 0) with 0%nat. cbn [nth_error obind nth].
   destruct l0 as [|n0 l0]; [reflexivity|]. cbn [negb]. cbv zeta.
   match goal with |- ok_opt (obind (while_fuel ?f ?C ?B ?s) ?K) = _ =>
-    pose proof (kt_root_loop H HL v C B ltac:(intros; reflexivity) ltac:(intros; reflexivity)
+    pose proof (kt_root_loop H HL v C B ltac:(body_eq) ltac:(body_eq)
                   f [] (n0 :: l0) above (lenN (n0 :: l0))) as HLoop
   end.
   etransitivity; [exact HLoop|].
